@@ -86,6 +86,33 @@ Theorem C36_batch_size_source : forall len nc,
 Proof. exact raw_batch_size_model. Qed.
 Print Assumptions C36_batch_size_source.
 
+(* Tie T for the read-back: the aggregates the querier selects (aggrsFromFunc, evaluated on
+   the linked code into Gen/C36.v) for count_over_time / sum_over_time / min_over_time /
+   max_over_time are COUNT / SUM / MIN / MAX; [readbacks] (used in C36_query_readback and
+   C36_pred) reads the chunks through this table. *)
+Theorem C36_aggr_selection : map lookup_aggr read_funcs = [[1]; [2]; [3]; [4]].
+Proof. exact aggr_selection. Qed.
+Print Assumptions C36_aggr_selection.
+
+(* Negative timestamps are NOT covered by the theorems above, and the statement is false
+   for them: downsampleBatch uses nextT = -1 as "no window yet", so samples at t <= -1 do
+   not open a window.  (a) A negative sample before a non-negative one is dropped from all
+   aggregates (count 1 for 2 samples).  (b) With only negative samples, all windows are
+   merged into a single row at t = -1 whose min is 0 — the zero value of the aggregator that
+   was never reset — instead of the true minimum.  Both behaviours are reproduced on the
+   real code by corpus/C36/negative_*.json (model = implementation). *)
+Theorem C36_negative_timestamps_refuted :
+  (let data := [(-10, Some 5); (0, Some 7)] in
+   StronglySorted Z.lt (map fst data) /\
+   exists out rows, downsample_raw_m 10 1 data = Some out /\ all_rows out = Some rows /\
+     rows = [(0, (1, 7, 7, 7))] /\ ~ totals_spec (keep_nonnan data) rows) /\
+  (let data := [(-25, Some 1); (-13, Some 2); (-1, Some 4)] in
+   StronglySorted Z.lt (map fst data) /\
+   exists out rows, downsample_raw_m 10 1 data = Some out /\ all_rows out = Some rows /\
+     rows = [(-1, (3, 7, 0, 4))] /\ ~ totals_spec (keep_nonnan data) rows).
+Proof. split; [exact negative_lost|exact negative_merged]. Qed.
+Print Assumptions C36_negative_timestamps_refuted.
+
 (* Non-vacuity: irregular series with a NaN, a window boundary and two batches
    (num_chunks = 2) at a 10 ms resolution. *)
 Example C36_nonvacuous :
